@@ -76,6 +76,7 @@ def run(rep: core.Report):
     _r17l(rep)
     _r17m(rep)
     _r17n(rep)
+    _r17p(rep)
     import glob as _glob
     from rules import c16 as _c16
 
@@ -899,6 +900,72 @@ def _r17k(rep):
     upper = [ret[0][1], ret[0][2], ret[1][2]]
     rep.instance("R17k", CELLS_, "get_cell_matrix", "lower-triangular orientation (a along x, b in the xy plane)", all(sp.simplify(x) == 0 for x in upper), "the returned lattice is not lower triangular", line=fn.lineno)
 
+
+
+def _r17p(rep):
+    """Streaming readers: an early exit from the event loop does not skip a field that is used afterwards."""
+    rep.rule("R17p", "streaming parsers (vasprun.xml readers): when the event loop is left early ('stop parsing when we have all the information'), every variable that is filled inside the loop and used after it is either part of the exit test or filled in the same block (same event) as a variable of the exit test; a field filled on a different event may not have been seen yet when the loop stops (the unit of the VASP-6 Hessian, written after the array), and its default is used instead", 1)
+    rel = "phonopy/interface/vasp.py"
+    tree = core.parse(rel)
+    n = 0
+    for fn in [x for x in ast.walk(tree) if isinstance(x, ast.FunctionDef)]:
+        for lp in [x for x in fn.body if isinstance(x, ast.For)]:
+            exits = [st for st in lp.body if isinstance(st, ast.If) and any(isinstance(b, ast.Break) for b in st.body)]
+            if not exits:
+                continue
+            tested = {n_.id for ex in exits for n_ in ast.walk(ex.test) if isinstance(n_, ast.Name)}
+            # variables assigned in the loop, by innermost enclosing block of the loop body
+            blocks = []  # (set of names assigned in this block statement list)
+
+            def collect(stmts):
+                here = set()
+                for st in stmts:
+                    if isinstance(st, (ast.Assign, ast.AugAssign)):
+                        for t in (st.targets if isinstance(st, ast.Assign) else [st.target]):
+                            for y in ast.walk(t):
+                                if isinstance(y, ast.Name) and isinstance(y.ctx, ast.Store):
+                                    here.add(y.id)
+                    elif isinstance(st, ast.If):
+                        # the arms of one if statement are different events: each is a block of its own
+                        collect(st.body)
+                        collect(st.orelse)
+                    elif isinstance(st, (ast.For, ast.While, ast.With, ast.Try)):
+                        sub = set()
+                        for y in ast.walk(st):
+                            if isinstance(y, ast.Name) and isinstance(y.ctx, ast.Store):
+                                sub.add(y.id)
+                        here |= sub
+                if here:
+                    blocks.append(here)
+                return here
+
+            collect(lp.body)
+            # nested ifs inside one arm belong to that arm as well: merge child blocks into the enclosing arm
+            def arm_sets(stmts):
+                out = []
+                for st in stmts:
+                    if isinstance(st, ast.If):
+                        for arm in (st.body, st.orelse):
+                            names = {y.id for x in arm for y in ast.walk(x) if isinstance(y, ast.Name) and isinstance(y.ctx, ast.Store)}
+                            if names:
+                                out.append(names)
+                return out
+
+            arms = arm_sets(lp.body)
+            assigned = set().union(*arms) if arms else set()
+            top = {y.id for st in lp.body if isinstance(st, (ast.Assign, ast.AugAssign)) for y in ast.walk(st) if isinstance(y, ast.Name) and isinstance(y.ctx, ast.Store)}
+            after = [st for st in fn.body if st.lineno > lp.end_lineno]
+            used_after = {y.id for st in after for y in ast.walk(st) if isinstance(y, ast.Name) and isinstance(y.ctx, ast.Load)}
+            for v in sorted((assigned | top) & used_after):
+                if v in tested or v in top:
+                    ok = True
+                else:
+                    ok = any(v in a and (a & tested) for a in arms)
+                n += 1
+                rep.instance("R17p", rel, core.qualname_of(fn), f"'{v}' is filled inside the event loop and used after it: covered by the exit test {sorted(tested)}", ok,
+                             f"'{v}' is filled on another event than the variables of the exit test {sorted(tested)}: when that event comes later in the file the loop has already stopped and the initial value of '{v}' is used (a VASP-6 Hessian in THz^2 is then taken for eV/Angstrom^2: force constants 244 times too large)", line=lp.lineno)
+    if n < 1:
+        raise AnalysisError("R17p: no streaming reader with an early exit found in phonopy/interface/vasp.py")
 
 
 def _r17n(rep):
